@@ -195,11 +195,24 @@ class Session:
             return orig_fwd(src_trx, rx_msg)
         fwd.forward_msg = forward_msg
         exc = None
+        # the tick goes through the REAL clock generator (send_clck_ind: indication, handler, increment).  Its counter is set only
+        # when the script jumps; for consecutive frames (incl. 2715647 -> 0) the generator's OWN increment decides which frame number
+        # the transceivers are ticked with, so a generator that counts wrongly puts the bursts on the air in the wrong tick
+        gen = self.app.clck_gen
+        if getattr(self, "_next_fn", None) != fn or gen.clck_handler is None or gen.clck_src != getattr(self, "_gen_after", None):
+            gen.clck_src = fn        # a jump in the script, or the generator was restarted (power cycle) since the last tick
+        self.tick_fns = getattr(self, "tick_fns", [])
         try:
-            self.app.clck_handler(fn)
+            self.tick_fns.append(gen.clck_src)
+            if gen.clck_handler is None:
+                self.app.clck_handler(fn)
+            else:
+                gen.send_clck_ind()
         except Exception as e:  # noqa
             exc = type(e).__name__
         finally:
+            self._next_fn = None if exc else (fn + 1) % 2715648
+            self._gen_after = gen.clck_src
             FS.sendto = orig
             del fwd.forward_msg
         return log, list(self.stale.records), exc
